@@ -387,7 +387,9 @@ def reset_library_state():
                     orig.update(rec[2])
                 if val is not orig:
                     setattr(h, attr, orig)
-            elif rec[0] == 's' and val is not rec[1] and isinstance(val, _SCALARS):
+            elif rec[0] == 's' and val is not rec[1]:
+                # (also when the new value is an object: a lazily created singleton kept in an attribute that was
+                # None at import)
                 setattr(h, attr, rec[1])
 
 
